@@ -605,4 +605,23 @@ func runC12(ctx *core.Ctx) {
 		c12Reduced.BFS(ctx, 3, 12_000_000)
 	}
 	pmReportReached(ctx)
+	// multi-scalar calls by size class (a tree may switch algorithm with the number of terms): the
+	// result must be a valid point equal to the model
+	var mc []manyCase
+	ns := []int{0, 1, 2, 3, 4, 5, 8, 9, 16, 17, 32, 33, 64, 65, 100, 128, 129, 190, 200, 256, 257}
+	if !ctx.Quick() {
+		ns = append(ns, 300, 400, 512, 513, 600, 1000, 1024, 1025)
+	}
+	for _, r := range []string{"MultiScalarMult", "VarTimeMultiScalarMult"} {
+		for _, n := range ns {
+			for si, sp := range []string{"small", "sparse", "zero", "one", "generic"} {
+				pp := []string{"distinct", "mixed", "B", "two-pointers-mixed"}[(si+n)%4]
+				mc = append(mc, manyCase{r, n, sp, pp, -1})
+				if n > 0 {
+					mc = append(mc, manyCase{r, n, sp, "mixed", n - 1})
+				}
+			}
+		}
+	}
+	subC12Many.RunList(ctx, mc)
 }
